@@ -78,5 +78,25 @@ def replay(o, scratch):
             im.close()
         print("PASSES")
         return 0
+    if kind == "cut":
+        from .extra import CUT_OBSERVERS
+        im = Impl(scratch)
+        try:
+            for l in lines:
+                im.exec(l)
+            k, j = o["cut"]
+            a = im.exec("cut %d %d" % (k, j))[0]
+            print("cut after %d writes + %d bytes ->" % (k, j), a)
+            bad = a not in ("ok", "err traph")
+            if a == "ok":
+                for q in CUT_OBSERVERS:
+                    ans = im.exec(q)[0]
+                    if ans.startswith("err") and not (q == "? metrics" and ans == "err other ZeroDivisionError"):
+                        print("FAILS:", q, "->", ans); bad = True
+                im.exec("uncut")
+            print("FAILS" if bad else "PASSES (refused or opens and answers every observer)")
+            return 1 if bad else 0
+        finally:
+            im.close()
     print("unknown replay kind", kind)
     return 2
